@@ -40,10 +40,14 @@ UpperSeq == <<"A","B","C","D","E","F","G","H","I","J","K","L","M","N","O","P","Q
 LowerSeq == <<"a","b","c","d","e","f","g","h","i","j","k","l","m","n","o","p","q","r","s","t","u","v","w","x","y","z">>
 DigitSeq == <<"0","1","2","3","4","5","6","7","8","9">>
 InSeq(c, s) == \E i \in 1..Len(s) : s[i] = c
+SetOf(s) == {s[i] : i \in 1..Len(s)}
+UpperSet == TLCEval(SetOf(UpperSeq))
+LowerSet == TLCEval(SetOf(LowerSeq))
+DigitSet == TLCEval(SetOf(DigitSeq))
 IdxIn(c, s) == CHOOSE i \in 1..Len(s) : s[i] = c
-IsUpper(c) == InSeq(c, UpperSeq)
-IsLower(c) == InSeq(c, LowerSeq)
-IsDigit(c) == InSeq(c, DigitSeq)
+IsUpper(c) == c \in UpperSet
+IsLower(c) == c \in LowerSet
+IsDigit(c) == c \in DigitSet
 DigitVal(c) == IdxIn(c, DigitSeq) - 1
 UpperOf(c) == IF IsLower(c) THEN UpperSeq[IdxIn(c, LowerSeq)] ELSE c
 
@@ -89,34 +93,44 @@ Key(v, s) == CASE v = "casefold" -> [i \in 1..Len(s) |-> UpperOf(s[i])]
                [] v = "prefix2"  -> SubSeq(s, 1, IF Len(s) < 2 THEN Len(s) ELSE 2)
                [] OTHER          -> s
 LossyKeys == {"casefold", "anagram", "nodigits", "prefix2"}
+\* constants, evaluated once
+CompOf == TLCEval([s \in PoolNames |-> Comp(s)])
+KeyOf == TLCEval([v \in LossyKeys |-> [s \in PoolNames |-> Key(v, s)]])
 \* two different species that some lossy key cannot tell apart
-Collide(a, b) == a # b /\ Comp(a) # Comp(b) /\ \E v \in LossyKeys : Key(v, a) = Key(v, b)
-CollidePairs == {p \in PoolNames \X PoolNames : Collide(p[1], p[2])}      \* constant: evaluated once
-CompOf == [s \in PoolNames |-> Comp(s)]
-PairKeys == [p \in CollidePairs |-> {v \in LossyKeys : Key(v, p[1]) = Key(v, p[2])}]
+Collide(a, b) == a # b /\ CompOf[a] # CompOf[b] /\ \E v \in LossyKeys : KeyOf[v][a] = KeyOf[v][b]
+CollidePairs == TLCEval({p \in PoolNames \X PoolNames : Collide(p[1], p[2])})
+PairKeys == TLCEval([p \in CollidePairs |-> {v \in LossyKeys : KeyOf[v][p[1]] = KeyOf[v][p[2]]}])
 CompList(s) == LET c == CompOf[s] IN SetToSeq({<<e, c[e]>> : e \in DOMAIN c})
+CompListOf == TLCEval([s \in PoolNames |-> CompList(s)])
+NameStr == TLCEval([s \in PoolNames |-> Concat(s)])
 Asked(h) == UNION {{h[o][k] : k \in 1..Len(h[o])} : o \in 1..Len(h)}
 Interesting(h) == \E a \in Asked(h), b \in Asked(h) : <<a, b>> \in CollidePairs
 \* the lossy keys under which two names of the behaviour coincide (exported as the input class)
 KeysOf(h) == UNION {PairKeys[p] : p \in {q \in CollidePairs : q[1] \in Asked(h) /\ q[2] \in Asked(h)}}
 
 \* ------------------------------------------------------------------- behaviour
-Objects == {o \in UNION {[1..k -> PoolNames] : k \in 1..MaxNames} : \A i, j \in 1..Len(o) : i # j => o[i] # o[j]}
+Objects == TLCEval({o \in UNION {[1..k -> PoolNames] : k \in 1..MaxNames} : \A i, j \in 1..Len(o) : i # j => o[i] # o[j]})
 Init == hist = <<>> /\ memo = <<>> /\ ans = <<>>
 
-\* the composition answered for name s when the memo holds m (Variant "spec": always read the formula)
-Answer(m, s) == IF Variant # "spec" /\ \E i \in 1..Len(m) : m[i].key = Key(Variant, s)
-                THEN m[CHOOSE i \in 1..Len(m) : m[i].key = Key(Variant, s)].comp
-                ELSE CompOf[s]
-RECURSIVE AskAll(_, _, _)
+\* the composition answered for name s by a design whose memo is keyed by v and holds m ("spec": always read the formula)
+KeyV(v, s) == IF v \in LossyKeys THEN KeyOf[v][s] ELSE s
+AnswerV(v, m, s) == IF v # "spec" /\ \E i \in 1..Len(m) : m[i].key = KeyV(v, s)
+                    THEN m[CHOOSE i \in 1..Len(m) : m[i].key = KeyV(v, s)].comp
+                    ELSE CompOf[s]
+RECURSIVE AskAllV(_, _, _, _)
 \* -> [memo, ans]: the object asks for its gases in order
-AskAll(m, o, k) ==
+AskAllV(v, m, o, k) ==
     IF k > Len(o) THEN [memo |-> m, ans |-> <<>>]
-    ELSE LET a    == Answer(m, o[k])
-             m2   == IF \E i \in 1..Len(m) : m[i].key = Key(Variant, o[k]) THEN m
-                     ELSE Append(m, [key |-> Key(Variant, o[k]), comp |-> CompOf[o[k]]])
-             rest == AskAll(m2, o, k + 1)
+    ELSE LET a    == AnswerV(v, m, o[k])
+             m2   == IF \E i \in 1..Len(m) : m[i].key = KeyV(v, o[k]) THEN m
+                     ELSE Append(m, [key |-> KeyV(v, o[k]), comp |-> CompOf[o[k]]])
+             rest == AskAllV(v, m2, o, k + 1)
          IN  [memo |-> rest.memo, ans |-> <<a>> \o rest.ans]
+AskAll(m, o, k) == AskAllV(Variant, m, o, k)
+\* what the LAST object of the process h would be handed by a design keyed by v (for the witnesses below)
+RECURSIVE RunV(_, _, _, _)
+RunV(v, m, h, i) == LET r == AskAllV(v, m, h[i], 1) IN IF i = Len(h) THEN r.ans ELSE RunV(v, r.memo, h, i + 1)
+WouldBreak(v, h) == LET a == RunV(v, <<>>, h, 1) IN \E k \in 1..Len(h[Len(h)]) : a[k] # CompOf[h[Len(h)][k]]
 Build(o) ==
     /\ Len(hist) < MaxObj
     /\ (Len(hist) > 0 => (PairsInSeq \/ (Len(o) = 1 /\ Len(hist[1]) = 1)))
@@ -146,11 +160,16 @@ RowsOf(o) == [g \in 1..Len(o) |-> <<Ab(o)[g]>>]
 MixOf(o) == Mix(<<R(RatioNum, RatioDen)>>, RowsOf(o), 1, "spec")
 SumsToOne == Len(hist) > 0 => LayerSum(MixOf(Cur), 1) = ROne
 
-ObjJson(o) == [names |-> [k \in 1..Len(o) |-> Concat(o[k])],
-               comps |-> [k \in 1..Len(o) |-> CompList(o[k])],
+ObjJson(o) == [names |-> [k \in 1..Len(o) |-> NameStr[o[k]]],
+               comps |-> [k \in 1..Len(o) |-> CompListOf[o[k]]],
                ab    |-> Ab(o),
                mix   |-> [g \in 1..(Len(o) + 2) |-> MixOf(o)[g][1]]]
+\* WITNESS: a reachable process in which a design with the lossy key v hands out the mass of another species, i.e.
+\* AnswerIsOfAskedFormula is refuted for that design (the RF_MolMass_<v>.cfg runs show the same as counterexamples)
 Emit == (Export /\ Len(hist) > 0 /\ Interesting(hist)) =>
-    PrintT(<<"MVEC", ToJson([ratio |-> R(RatioNum, RatioDen), keys |-> SetToSeq(KeysOf(hist)),
-                             objs  |-> [i \in 1..Len(hist) |-> ObjJson(hist[i])]])>>)
+    /\ PrintT(<<"MVEC", ToJson([ratio |-> R(RatioNum, RatioDen), keys |-> SetToSeq(KeysOf(hist)),
+                                objs  |-> [i \in 1..Len(hist) |-> ObjJson(hist[i])]])>>)
+    /\ \A v \in LossyKeys : IF WouldBreak(v, hist)
+                             THEN PrintT(<<"WITNESS", ToJson([variant |-> v, names |-> [i \in 1..Len(hist) |-> ObjJson(hist[i]).names]])>>)
+                             ELSE TRUE
 =============================================================================
